@@ -33,6 +33,7 @@ def bases(seed):
         S(items=[F('a', 2), ('bNR',)], join=J('LEFT OUTER JOIN'), where=w1),
         S(items=[F('a', 1), F('b', 1)], join=J('STRICT LEFT JOIN', [(F('a', 2), F('b', 1))])),
         S(items=[F('a', 1), F('b', 2)], join=J('JOIN', [(F('a', 1), F('b', 1)), (F('a', 2), F('b', 1))])),
+        S(items=[F('a', 1), F('b', 2), ('bNR',)], join=J('LEFT JOIN', [(F('a', 1), F('b', 1)), (F('a', 1), F('b', 1)), (F('a', 1), F('b', 1))])),      # three key pairs: the orders of the sides can be mixed
         S(items=[F('a', 1), ('agg', 'COUNT', 'U', ('star', None))], group=[F('a', 1)], where=w2, top=('LIMIT', 5)),
         S(items=[('agg', 'ARRAY_AGG', 'U', F('a', 2)), ('agg', 'COUNT', 'U', ('star', None))], group=[F('a', 1)], join=J('JOIN')),
         S(items=[('star', None)], except_cols=[F('a', 2)], where=w1),
@@ -57,7 +58,7 @@ def bases(seed):
     return qs, named, A, B
 
 
-TRANSFORMS = ['lower', 'mixed', 'dspace', 'manyspaces', 'tabsep', 'nlsep', 'c_before', 'c_between', 'c_after', 'semicolon', 'bracket_fields', 'toplimit', 'joinalt', 'eqsingle', 'swapon', 'from_a', 'asc']
+TRANSFORMS = ['lower', 'mixed', 'dspace', 'manyspaces', 'tabsep', 'nlsep', 'c_before', 'c_between', 'c_after', 'semicolon', 'bracket_fields', 'toplimit', 'joinalt', 'eqsingle', 'swapon', 'from_a', 'asc', 'swapodd']
 
 
 def apply(subset, q):
@@ -83,6 +84,7 @@ def apply(subset, q):
         elif t == 'joinalt': kw['join_alt'] = True
         elif t == 'eqsingle': kw['eq_single'] = True
         elif t == 'swapon': kw['swap_on'] = True
+        elif t == 'swapodd': kw['swap_on'] = 'odd'
         elif t == 'from_a': kw['from_a'] = True
         elif t == 'asc': kw['asc_explicit'] = True
     return kw
@@ -91,6 +93,7 @@ def apply(subset, q):
 def conflicting(subset):
     s = set(subset)
     if 'lower' in s and 'mixed' in s: return True
+    if 'swapon' in s and 'swapodd' in s: return True
     if 'dspace' in s and 'manyspaces' in s: return True
     if 'tabsep' in s and 'nlsep' in s: return True
     if len(s & {'c_before', 'c_between', 'c_after'}) > 1: return True
@@ -276,7 +279,7 @@ def main(tier, seed):
         shards.append({'part': 'literals', 'seed': seed, 'lo': lo, 'hi': hi, 'maxtok': maxtok})
     res = core.run_shards('vf.checks.c08', shards)
     return core.finish(PID, tier, seed, res, t0,
-        rule='A: %d base queries x all subsets up to the size bound of 17 spelling transformations (conflicting pairs excluded) x all clause permutations (<= 4 clauses; order and its reverse otherwise), differential against the canonical spelling; '
+        rule='A: %d base queries x all subsets up to the size bound of 18 spelling transformations (conflicting pairs excluded) x all clause permutations (<= 4 clauses; order and its reverse otherwise), differential against the canonical spelling; '
              'B: all token sequences up to the length bound over a %d-token literal alphabet x 2 quote styles x 4 positions x header/no header against RefQL with the literal as an opaque value; non-trivial = a transformed spelling / a non-empty literal' % (n, len(TOKENS)),
         assumptions=['the canonical spelling is tied to RefQL by C01-C05 (and re-checked here for every base query)', 'literal text is written with backslash and same-quote escapes only, tabs raw'],
         extra={'bases': n, 'transformations': TRANSFORMS, 'literal_tokens': TOKENS},
